@@ -9,7 +9,7 @@ SPEC = dict(
          'current headers: (struct) sizeof/alignof, field count, and per field offset, size, class {int:N, float:N, bool, ptr(+pointee size), arr:N*class, '
          'agg:N} and name position - C field names and order come from the compiler\'s DWARF via gdb, C values from an executed C++17 probe, Rust '
          'values from an executed probe (size_of/align_of/offset_of!/trait-based class) built from a verbatim copy of lib.rs; (function) symbol defined '
-         'in the library, arity, class of every parameter and of the result; (transfer) position-coded bytes written through the Rust mirror are read '
+         'in the library, arity, class of every parameter and of the result; (static) every `static` item of the extern blocks: size, class, alignment and signedness of the declared Rust type against sizeof/alignof/signedness of the C object as the headers declare it (executed C++ probe), against the symbol size in the library archive (nm -S), and the object\'s bytes read through the binding\'s declaration against the bytes read in C (keys abi/static/<name>/type|align|object-size|signedness|value); a static not measured on every side, or an extern item the parser cannot classify, makes the run inconclusive (evidence: statics_measured_three_ways, unmeasured_statics, unparsed_extern_items); (transfer) position-coded bytes written through the Rust mirror are read '
          'through the C definition and vice versa for every mirrored struct; (call-through) crc8/16/32/64 known answers, pid pos/inc, tf, trajtrap, '
          'trajbell, trajpoly3/5/7, regress_simple, version driven through the binding\'s public API and compared bit for bit with the same computation in C, '
          '(wrapper equivalence, twin execution) every pub fn of every impl block, every free pub fn (incl. mod mf), every trait-impl fn (Default, PartialOrd, PartialEq) '
@@ -25,7 +25,7 @@ SPEC = dict(
          'and call-through scenarios compared on both sides.',
     exhaustive={},
     assumptions=_COMMON + [
-        'differences no execution on x86-64 can observe are not reported: signedness, pointer constness, same-width integer aliases, a pointee of size <= 1 '
+        'differences no execution on x86-64 can observe are not reported: signedness of parameters, results and fields (the signedness of a foreign static IS compared), pointer constness, same-width integer aliases, a pointee of size <= 1 '
         '(void/char/u8) on either side',
         'a pure field rename is not an ABI change (positions of equal names are compared; version.alpha <-> a_version.alpha_ is normalised)',
         'crc8/16/32/64 wrappers have no C struct; they are checked through their functions\' parameter types and the known-answer calls',
